@@ -78,7 +78,8 @@ func VerifC20Pull() {
 			if fails {
 				return nil, errPull
 			}
-			return &packagetypes.RawPackage{Files: packagetypes.Files{"manifest.yaml": make([]byte, payload)}}, nil
+			// an empty file read with io.ReadAll has no content but spare capacity
+			return &packagetypes.RawPackage{Files: packagetypes.Files{"manifest.yaml": make([]byte, payload), "empty.yaml": make([]byte, 0, 512)}}, nil
 		}
 		results := make([]*packagetypes.RawPackage, total)
 		errs := make([]error, total)
@@ -136,7 +137,8 @@ func VerifC20Pull() {
 			for b := a + 1; b < total; b++ {
 				if results[a] != nil && results[b] != nil {
 					private := results[a] != results[b] && !verifrt.SameObject(results[a].Files, results[b].Files) &&
-						!verifrt.SameObject(results[a].Files["manifest.yaml"], results[b].Files["manifest.yaml"])
+						!verifrt.SameObject(results[a].Files["manifest.yaml"], results[b].Files["manifest.yaml"]) &&
+						!verifrt.SameObject(results[a].Files["empty.yaml"], results[b].Files["empty.yaml"])
 					verifrt.Assert(private, "C20/each-caller-gets-a-private-copy")
 				}
 			}
